@@ -384,32 +384,9 @@ type nodeRec struct {
 	base  []types.Block // blocks below a bootstrapped node's checkpoint (for the audit), else nil
 }
 
-type workTrace struct {
-	mu    sync.Mutex
-	works []*big.Int
-}
+type workTrace = netx.WorkTrace
 
-func traceWork(n *netx.Node) *workTrace {
-	w := &workTrace{works: []*big.Int{netx.WorkOf(n.CM.TipState().TotalWork)}}
-	n.CM.OnReorg(func(types.ChainIndex) {
-		tw := netx.WorkOf(n.CM.TipState().TotalWork)
-		w.mu.Lock()
-		w.works = append(w.works, tw)
-		w.mu.Unlock()
-	})
-	return w
-}
-
-func (w *workTrace) decreasing() string {
-	w.mu.Lock()
-	defer w.mu.Unlock()
-	for i := 1; i < len(w.works); i++ {
-		if w.works[i].Cmp(w.works[i-1]) < 0 {
-			return fmt.Sprintf("total work went from %v to %v", w.works[i-1], w.works[i])
-		}
-	}
-	return ""
-}
+func traceWork(n *netx.Node) *workTrace { return netx.TraceWork(n) }
 
 var (
 	mainMu sync.Mutex
@@ -861,7 +838,13 @@ func runSpec(s spec, ip string) *vh.Case {
 		if msg := auditNode(nr); msg != "" {
 			c.Oracle("best-chain-invalid", "node %d: %s", i, msg)
 		}
-		if msg := nr.trace.decreasing(); msg != "" {
+		if msg := nr.trace.Stuck(); msg != "" {
+			c.Oracle("listener-called-with-lock-held", "node %d: %s", i, msg)
+		}
+		if msg := nr.n.Store.Stuck(); msg != "" {
+			c.Oracle("peer-store-called-with-lock-held", "node %d: %s", i, msg)
+		}
+		if msg := nr.trace.Decreasing(); msg != "" {
 			c.Oracle("tip-work-decreased", "node %d: %s", i, msg)
 		}
 		if netx.WorkOf(nr.n.CM.TipState().TotalWork).Cmp(nr.start) < 0 {
